@@ -331,6 +331,20 @@ class Hooks:
         return NotImplemented
 
 
+class KeyList(list):
+    """dict.keys() result: a list for iteration, set-like for comparison."""
+
+    def __eq__(self, o):
+        if isinstance(o, (set, frozenset)):
+            return set(self) == o
+        return list.__eq__(self, o)
+
+    def __ne__(self, o):
+        return not self.__eq__(o)
+
+    __hash__ = None  # type: ignore
+
+
 class Env:
     def __init__(self, module: ModuleInfo, parent: Optional['Env'] = None, cls: Optional[ClassInfo] = None):
         self.vars: Dict[str, Any] = {}
@@ -1832,7 +1846,7 @@ class Interp:
             if isinstance(recv, dict) and name == 'items':
                 return [(k, v) for k, v in recv.items()]
             if isinstance(recv, dict) and name == 'keys':
-                return list(recv.keys())
+                return KeyList(recv.keys())
             if isinstance(recv, dict) and name == 'values':
                 return list(recv.values())
             if isinstance(recv, dict) and name == 'update' and args and not isinstance(args[0], dict):
